@@ -25,7 +25,11 @@ type c15Case struct {
 	Wire   string   `json:"wire_hex,omitempty"`
 	Pos    int      `json:"pos,omitempty"`
 	Xor    int      `json:"xor,omitempty"`
+	Prev   string   `json:"prev_wire_hex,omitempty"` // receiver: the packet that was decoded into the same EAP value before this one
 }
+
+// c15PrevWire: the packet the receiver side processed before the current one (per worker process).
+var c15PrevWire []byte
 
 func c15KeyContent(n, pat int) []byte {
 	switch pat {
@@ -345,6 +349,12 @@ func c15Sender(c *engine.Ctx, cs c15Case) {
 			return
 		}
 	}
+	// the caller keeps the returned code (no copy) while the same packet object computes another one (a retry
+	// with the key of another context, a verification right after): the code it holds stays what it was
+	if _, err := le.CalcEapAkaPrimeAtMAC(c15KeyContent(cs.KeyLen+1, (cs.KeyPat+1)%3)); err == nil && !bytes.Equal(mac, want) {
+		c.Violate("sender/held-mac-changed-by-later-call", fmt.Sprintf("%s: the code returned first (%x) reads %x after a second CalcEapAkaPrimeAtMAC on the same packet with another key", cs.Name, want, mac), cs)
+		return
+	}
 	c.Distinct(engine.Hash64(wire, key))
 	c.Sample("sender", map[string]interface{}{"name": cs.Name, "key_len": cs.KeyLen, "mac": engine.Hex(mac), "wire": engine.Hex(trunc(wire, 48))})
 	// receiver on the library's own wire packet, and sensitivity
@@ -475,6 +485,41 @@ func c15Receiver(c *engine.Ctx, cs c15Case, wire []byte) {
 	if err != nil {
 		c.Violate("receiver/error", fmt.Sprintf("%s: %v; wire %x", cs.Name, err, trunc(wire, 60)), cs)
 		return
+	}
+	// a receiver that decodes every packet of a conversation into one EAP value (the previous packet may carry
+	// attributes this one lacks) computes what a receiver with a new value computes
+	prev := c15PrevWire
+	if cs.Prev != "" {
+		prev = engine.UnHex(cs.Prev)
+	}
+	c15PrevWire = append([]byte(nil), wire...)
+	if prev != nil {
+		cs.Prev = engine.Hex(prev)
+		u := new(eap.EAP)
+		var got2 []byte
+		var err1, err2 error
+		if pi := engine.Catch(func() {
+			err1 = u.Unmarshal(prev)
+			if err2 = u.Unmarshal(wire); err2 == nil {
+				got2, err2 = u.CalcEapAkaPrimeAtMAC(key)
+			}
+		}); pi != nil {
+			c.Violate(pi.Sig(), "receiver path on a used EAP value panics: "+pi.Value, cs)
+			return
+		}
+		if err1 == nil && (err2 != nil || !bytes.Equal(got2, got)) {
+			c.Violate("receiver/used-eap-value", fmt.Sprintf("%s: decoded into an EAP value that held the previous packet (%x…), the receiver computes %x (%v); decoded into a new value %x", cs.Name, trunc(prev, 24), got2, err2, got), cs)
+			return
+		}
+		c.Count("receiver_on_used_value_agrees", 1)
+		cs.Prev = ""
+	}
+	held := got
+	if _, err := d.CalcEapAkaPrimeAtMAC(c15KeyContent(cs.KeyLen+1, (cs.KeyPat+1)%3)); err == nil {
+		if g3, err := d.CalcEapAkaPrimeAtMAC(key); err != nil || !bytes.Equal(g3, held) {
+			c.Violate("receiver/held-mac-changed-by-later-call", fmt.Sprintf("%s: the code returned first reads %x after a second computation with another key; computed again with the first key: %x", cs.Name, held, g3), cs)
+			return
+		}
 	}
 	if bytes.Equal(got, sent) {
 		c.Count("receiver_agrees", 1)
